@@ -583,3 +583,61 @@ def r7_signed_totals(ck, P, rid):
             ck.violation(R, f.name, 'unsigned treatment of a convolution total', '%s applies %s to a per-channel total' % (f.name, bad[1]), bad[0].loc())
         else:
             ck.ok(R, '%s: totals handled as signed' % f.name)
+
+
+def r8_coefficient_product_width(ck, P, rid):
+    """T-WID: fx * fy needs 33 bits when both weights approach 1.0"""
+    R = ck.rule(rid, 'wherever a reader of the separable-convolution block multiplies an x coefficient by a y coefficient (two 16.16 weights of magnitude up to 1.0), the product is formed in 64 bits: a 32-bit product wraps for narrow filters whose central weights are close to 1.0 on both axes', floor=2)
+    n = 0
+    for f in P.functions():
+        sy = Sym(P, f)
+        coef = set()
+        for x in f.insts():
+            if x.op != 'load' or x.ty not in ('i32',):
+                continue
+            if sy.header_index(x.a[0]) is not None:
+                continue
+            rt = f.root(f.path(x.a[0]))
+            # address derived from the parameter block: through a pointer phi / GEP chain that starts at filter_params (or a params argument)
+            ok = False
+            for r in common.roots(f, x.a[0]):
+                if r[0] == 'load' or r[0] == 'arg':
+                    pass
+            ats = f.atoms(x.a[0])
+            if ('field', 'image_common.filter_params') in ats or ('via', 'image_common.filter_params') in ats:
+                ok = True
+            if ok:
+                coef.add(x.i)
+        if len(coef) < 2:
+            continue
+        memo = {}
+
+        def C(o, d=0):
+            if o[0] != 'v' or d > 25:
+                return frozenset()
+            if o[1] in memo:
+                return memo[o[1]]
+            memo[o[1]] = frozenset()
+            x = f.by_id[o[1]]
+            if x.i in coef:
+                r = frozenset([x.i])
+            elif x.op in ('sext', 'zext', 'trunc', 'phi', 'freeze'):
+                r = frozenset().union(*[C(a, d + 1) for a in x.a]) if x.a else frozenset()
+            else:
+                r = frozenset()
+            memo[o[1]] = r
+            return r
+
+        for x in f.insts():
+            if x.op != 'mul':
+                continue
+            c1, c2 = C(x.a[0]), C(x.a[1])
+            if not c1 or not c2 or c1 == c2:
+                continue
+            n += 1; ck.saw(f)
+            if x.ty == 'i64':
+                ck.ok(R, '%s: coefficient product at %s is 64-bit' % (f.name, x.loc()))
+            else:
+                ck.violation(R, f.name, 'coefficient product width', '%s multiplies two filter coefficients in %s (%s): with weights near 1.0 on both axes the product exceeds 31 bits and the pixel contribution wraps (a constant image no longer stays constant)' % (f.name, x.ty, x.loc()), x.loc())
+    if n == 0:
+        ck.incomplete(R, 'no product of two filter coefficients found in any reader')
